@@ -504,6 +504,10 @@ class ShuffleRepeatBatchView:
     self._skip_shuffle = hparams.skip_shuffle
 
   def __iter__(self) -> Iterator[Examples]:
+    if self._data_size == 0:
+      # Nothing to draw from: an empty dataset yields no batches (filling a
+      # batch below would otherwise never terminate).
+      return
     buf = np.arange(self._data_size, dtype=np.int32)
     buf_size = buf.shape[0]
     # Start of unused portion of buf. We start with no unused values because we
